@@ -276,6 +276,15 @@ func (c *channel) receiveSession(ctx context.Context) (*Session, error) {
 
 	switch state {
 	case SessionStateFinished:
+		// The receiver goroutine may already have folded the terminal session into the state;
+		// in this case the session itself is still waiting in the buffer.
+		select {
+		case s, ok := <-c.inSesChan:
+			if ok {
+				return s, nil
+			}
+		default:
+		}
 		return nil, fmt.Errorf("receive session: cannot do in the %v state", state)
 	case SessionStateEstablished:
 		select {
